@@ -52,3 +52,35 @@ mutant('C19', 'flatten last uses max', LOG, 'merged_df[merged_df.Step < thermo.S
 benign('C19', 'header offset commuted', LOG, 'thermo_headers.append(i+1)', 'thermo_headers.append(1 + i)')
 benign('C19', 'flatten first comparison flipped', LOG, 'thermo[thermo.Step > merged_df.Step.max()]', 'thermo[merged_df.Step.max() < thermo.Step]')
 benign('C19', 'blank test via strip', LOG, 'if len(line.split()) == 0:', 'if not line.strip():')
+
+# ------------------------------------------------------------------ C09
+UC = 'atomman/unitconvert.py'
+ST = 'atomman/lammps/style.py'
+mutant('C09', 'regress-F9 length from energy without sqrt', UC, 'nu.m = (J * nu.s**2 / nu.kg)**0.5', 'nu.m = (J * nu.s**2 / nu.kg)', 'WORKING-UNITS')
+mutant('C09', 'time from energy without sqrt', UC, 'nu.s = (nu.kg * nu.m**2 / J)**0.5', 'nu.s = (nu.kg * nu.m**2 / J)', 'WORKING-UNITS')
+mutant('C09', 'mass from energy inverted', UC, 'nu.kg = J * nu.s**2 / nu.m**2', 'nu.kg = J * nu.m**2 / nu.s**2', 'WORKING-UNITS')
+mutant('C09', 'stale unit table in energy arm', UC, 'nu.kg = J * nu.s**2 / nu.m**2', "nu.kg = J * unit['s']**2 / unit['m']**2", 'WORKING-UNITS')
+mutant('C09', 'length ratio inverted', UC, "nu.m = unit['m'] / unit[kwargs['length']]", "nu.m = unit[kwargs['length']] / unit['m']", 'WORKING-UNITS')
+mutant('C09', 'charge uses wrong base', UC, "nu.C = unit['C'] / unit[kwargs['charge']]", "nu.C = unit['C'] / unit[kwargs['time']]", 'WORKING-UNITS')
+mutant('C09', 'energy arm order: time checked before mass', UC, "            if 'mass' not in kwargs:\n                nu.kg = J * nu.s**2 / nu.m**2\n            elif 'time' not in kwargs:", "            if 'time' not in kwargs and 'mass' in kwargs:\n                pass\n            elif 'mass' not in kwargs:\n                nu.kg = J * nu.s**2 / nu.m**2\n            elif 'time' not in kwargs:", 'WORKING-UNITS')
+mutant('C09', 'five units accepted', UC, 'if len(kwargs) > 4:', 'if len(kwargs) > 5:', 'WORKING-UNITS')
+mutant('C09', 'parse: all * before /', UC, "            if terms[1] == '*':\n                value = [terms[0] * terms[2]]\n                terms = value + terms[3:]\n            elif terms[1] == '/':\n                value = [terms[0] / terms[2]]\n                terms = value + terms[3:]",
+       "            if '*' in terms:\n                c = terms.index('*')\n                value = [terms[c-1] * terms[c+1]]\n                terms = terms[:c-1] + value + terms[c+2:]\n            elif terms[1] == '/':\n                value = [terms[0] / terms[2]]\n                terms = value + terms[3:]", 'PRECEDENCE')
+mutant('C09', 'parse: division right operand swapped', UC, 'value = [terms[0] / terms[2]]', 'value = [terms[2] / terms[0]]', 'PRECEDENCE')
+mutant('C09', 'parse: power after multiplication', UC, "        while '^' in terms:\n            c = terms.index('^')\n            value = [terms[c-1] ** terms[c+1]]\n            terms = terms[:c-1] + value + terms[c+2:]\n", "", 'PRECEDENCE')
+mutant('C09', 'parse: paren substring off by one', UC, 'terms.append(parse(units[i+1:j]))', 'terms.append(parse(units[i+1:j-1]))', 'PRECEDENCE')
+mutant('C09', 'get_in_units multiplies', UC, 'return np.asarray(value) / units', 'return np.asarray(value) * units', 'INVERSE-PAIR')
+mutant('C09', "parse('scaled') not neutral", UC, "if units is None or units == 'scaled':", "if units is None:", 'INVERSE-PAIR')
+mutant('C09', 'nano torque has force dimension', ST, "params['torque'] =              '1e-18*g*nm^2/ns^2'", "params['torque'] =              '1e-18*g*nm/ns^2'", 'STYLE-DIM')
+mutant('C09', 'metal time is fs', ST, "        params['time'] =                'ps'\n        params['energy'] =              'eV'", "        params['time'] =                'fs'\n        params['energy'] =              'eV'", 'STYLE-SI')
+mutant('C09', 'real pressure in bar', ST, "params['pressure'] =            'atm'", "params['pressure'] =            'bar'", 'STYLE-SI')
+mutant('C09', 'micro density wrong power', ST, "'pg/um^3'", "'pg/um^2'", 'STYLE-DIM')
+mutant('C09', 'ang-mom derived without mass', ST, "f\"{params['length']}*{params['velocity']}*{params['mass']}\"", "f\"{params['length']}*{params['velocity']}\"", 'STYLE-DIM')
+mutant('C09', 'cgs velocity typo', ST, "'cm/s'", "'cm*s'", 'STYLE-DIM')
+mutant('C09', 'model drops shape for rank 2', UC, "        datamodel['shape'] = list(shape)\n", "", 'MODEL-KEYS')
+mutant('C09', 'value_unit ignores unit', UC, "        value = set_in_units(term['value'], unit)", "        value = np.asarray(term['value'])", 'MODEL-KEYS')
+benign('C09', 'sqrt via np.sqrt', UC, 'nu.m = (J * nu.s**2 / nu.kg)**0.5', 'nu.m = np.sqrt(J * nu.s**2 / nu.kg)')
+benign('C09', 'mass arm regrouped', UC, 'nu.kg = J * nu.s**2 / nu.m**2', 'nu.kg = J * (nu.s / nu.m)**2')
+benign('C09', 'style string regrouped', ST, "'kcal/(mol*angstrom)'", "'kcal/mol/angstrom'")
+benign('C09', 'set_in_units commuted', UC, 'return np.asarray(value) * units', 'return units * np.asarray(value)')
+benign('C09', 'reduction: product assigned directly', UC, "                value = [terms[0] * terms[2]]\n                terms = value + terms[3:]", "                terms = [terms[0] * terms[2]] + terms[3:]")
